@@ -238,6 +238,32 @@ PROPS = {
              "timeout": {Q: 900, T: 3000}},
         ],
     },
+
+    "C07": {
+        "level": "exploration",
+        "technique": "runtime monitor: grammar-aware + byte-mutated requests through ServeConn into a kitchen-sink handler; process-survival with journal attribution under an address-space limit, strict independent response parser, allocation budget per request (MemStats), response-helper injection oracle (expected header-name multiset)",
+        "level_text": "Request byte strings from a grammar-aware generator (request line, Range/Accept*/Cookie/Content-Encoding/X-Forwarded-*/conditional headers, chunked and length-framed bodies, multipart, gzip/deflate/br/zstd bodies valid and truncated, flash cookies incl. huge announced sizes) plus byte-level mutation and pipelining are served through fasthttp's ServeConn into a handler that calls every accessor, under 8 configurations; the process must survive (each input is journalled first; fatal candidates run in a child), the bytes written back must parse with the strict parser and match the requests in count and order, TotalAlloc per request must stay within 256 KiB + 64 B per request byte (+ the announced body), and unknown methods / oversized headers / oversized bodies / bad request lines must get 501/431/413/400. In inject mode attacker-chosen strings (all byte values) are passed to exactly one response helper per request; the parsed response must contain exactly the helper's header names and body.",
+        "level_note": TRUSTED + "; a control byte other than CR/LF inside the value the handler itself passed to a helper is counted, not judged (it adds no header line and is outside a header helper's documented domain); the hang clause relies on the driver's watchdog.",
+        "rule": "case = one connection script (1-4 requests) x config, or one (helper, attacker string); non-trivial = request that reached the handler or a distinct error class; distinct by (config, status/error class, accessor outcome) resp. (helper, byte class, string)",
+        "subs": [
+            {"engine": "wire.survive", "mode": "plain", "shards": {Q: 16, T: 16}, "gomaxprocs": 1, "ulimit_kb": 1572864,
+             "env": {"MALLOC_ARENA_MAX": 1}, "min_nontrivial": {Q: 8000, T: 150000}, "timeout": {Q: 600, T: 3000}},
+            {"engine": "wire.inject", "mode": "plain", "shards": {Q: 16, T: 16}, "gomaxprocs": 1, "ulimit_kb": 1572864,
+             "env": {"MALLOC_ARENA_MAX": 1}, "min_nontrivial": {Q: 800, T: 1500}, "timeout": {Q: 300, T: 900}},
+            {"engine": "wire.survive", "mode": "race", "shards": {Q: 2, T: 4}, "tiers": [T], "timeout": {T: 3400}},
+        ],
+    },
+    "C12": {
+        "level": "exploration",
+        "technique": "runtime monitor: three-request redirect scripts through ServeConn with a conforming cookie client (strict Set-Cookie parsing), independent reference decoder for the issued cookie, hostile-cookie family with allocation budget",
+        "level_text": "Handler A attaches messages (keys/values/levels over all bytes, 0-8 messages) and old input to a redirect; a conforming client stores the Set-Cookie only if well-formed and replays it; handler B must report exactly the attached set, the response must expire the cookie so the third request sees nothing; requests without the cookie see nothing. Hostile cookies (arbitrary bytes, every truncation of valid encodings, huge announced sizes, trailing bytes) must yield no messages within the allocation budget.",
+        "level_note": TRUSTED + "; valid MessagePack with missing/extra fields yielding empty-field messages is counted, not judged; values outside RFC 6265 cookie-octets that a section 5.2 user agent still stores are counted, not judged; decode *time* is not measured (no wall clock in oracles).",
+        "rule": "case = one 3-step script or one hostile cookie; non-trivial = script with >=1 message completed through all steps, or a hostile cookie that reached the decoder; distinct by message set / cookie bytes",
+        "subs": [
+            {"engine": "wire.flash", "mode": "plain", "shards": {Q: 16, T: 16}, "gomaxprocs": 1, "ulimit_kb": 1572864,
+             "env": {"MALLOC_ARENA_MAX": 1}, "min_nontrivial": {Q: 250, T: 3000}, "timeout": {Q: 600, T: 3000}},
+        ],
+    },
 }
 
 HOOK_COMMITS = ["d290bd8", "d29431c"]
